@@ -192,7 +192,8 @@ def make_pulse_sequence(transform, values, duration, rf, offset=None):
         for alpha, phi, dur in zip(alphas, phis, durations)
     ]
 
-    if offset:  # phase offset
+    if offset is not None and np.any(offset):  # phase offset
+        offset = np.asarray(offset) if np.ndim(offset) else offset
         # sequence = [transform(0, -offset)] + sequence + [transform(0, offset)]
         sequence = [transition.Phi(-offset)] + sequence + [transition.Phi(offset)]
 
